@@ -25,7 +25,7 @@ RULE = ("seeded swarm over call-mode entry points (Retry/Policy/RetryPolicy, con
 COMPONENTS = common.REAL_COMPONENTS
 ASSUMPTIONS = ["every value/exception object produced by the scripted operation is fresh, so identity is checkable",
                "abnormal terminations (raising callbacks, cancellation) are C08/C13's domain and not generated", "sampling, not proof"]
-BUDGETS = {"quick": (20000, 40), "thorough": (1200000, 280)}
+BUDGETS = {"quick": (60000, 90), "thorough": (3000000, 285)}
 
 
 def gen(seed, tier="quick"):
